@@ -681,16 +681,23 @@ impl Accu {
             }
             vio.insert(k.clone(), json!(v.count));
         }
-        json!({
+        let mut v = json!({
             "part": part,
             "evaluations": self.evals,
             "transitions": self.transitions,
-            "distinct_states": self.states.len(),
-            "distinct_nontrivial": self.nontrivial.len(),
             "distinct_outcomes": self.outcomes.len(),
             "counters": self.counters,
             "violation_occurrences": vio,
-        })
+        });
+        if let Some(o) = v.as_object_mut() {
+            if !self.states.is_empty() {
+                o.insert("distinct_states".into(), json!(self.states.len()));
+            }
+            if !self.nontrivial.is_empty() {
+                o.insert("distinct_nontrivial".into(), json!(self.nontrivial.len()));
+            }
+        }
+        v
     }
 }
 
@@ -700,14 +707,16 @@ static DEADLINE_MS: std::sync::atomic::AtomicU64 = std::sync::atomic::AtomicU64:
 static CAPPED: std::sync::atomic::AtomicBool = std::sync::atomic::AtomicBool::new(false);
 
 /// Wall-clock cap of the whole check (default 50 s quick, 540 s thorough; VERIF_WALL_CAP_S
-/// overrides).  Parts get cumulative shares of it: the part ending at share `upto` (0..1] must
-/// finish before start + cap * upto, so time a part does not use rolls over to the later ones.
-/// Hitting a deadline is reported through `rep.not_exhaustive`.
-pub fn set_deadline(thorough: bool, upto: f64) {
+/// overrides).  A part of weight `w`, with `w_remaining` the weight of all parts not yet run
+/// (including this one), may use the fraction w / w_remaining of the time that is left.  Hitting a
+/// deadline is reported through `rep.not_exhaustive`.
+pub fn set_deadline(thorough: bool, w: f64, w_remaining: f64) {
     let start = *START.get_or_init(std::time::Instant::now);
-    let _ = start;
-    let secs = std::env::var("VERIF_WALL_CAP_S").ok().and_then(|s| s.parse().ok()).unwrap_or(if thorough { 540.0f64 } else { 50.0 });
-    DEADLINE_MS.store((secs * upto * 1000.0) as u64, Ordering::Relaxed);
+    let cap = std::env::var("VERIF_WALL_CAP_S").ok().and_then(|s| s.parse().ok()).unwrap_or(if thorough { 540.0f64 } else { 50.0 });
+    let now = start.elapsed().as_secs_f64();
+    let left = (cap - now).max(0.0);
+    let deadline = now + left * (w / w_remaining.max(w)).min(1.0);
+    DEADLINE_MS.store(((deadline * 1000.0) as u64).max(1), Ordering::Relaxed);
 }
 pub fn past_deadline() -> bool {
     let d = DEADLINE_MS.load(Ordering::Relaxed);
